@@ -226,7 +226,7 @@ class Random(HypPart):
         t = Tape(drawn)
         while not t.exhausted():
             if t.chance(10):
-                pool, text = 'G5-nested', pools.nested_pump(t)       # trees far deeper than ordinary documents
+                pool, text = 'G5-nested', pools.nested_pump(t, 75)       # trees far deeper than ordinary documents (token depth up to ~160)
             else:
                 pool, text = pools.any_text(t, 300)
             for tokens in TOKEN_SETS if t.chance(40) else [t.choice(TOKEN_SETS)]:
